@@ -312,6 +312,9 @@ pub struct OpResult {
     pub observes: Vec<Option<ObsView>>,
     pub desired_polls: Vec<Option<i8>>,
     pub now: u64,
+    /// how many non-finite values were converted with `NtpDuration::from_seconds` during this op (hook counter)
+    #[serde(default)]
+    pub nonfinite_seconds: u64,
 }
 
 pub fn sync_config(s: &SyncSpec) -> SynchronizationConfig {
@@ -411,8 +414,13 @@ pub async fn run_case(case: &KCase, stream_fd: Option<i32>) -> Vec<OpResult> {
     let idx_of = |id: ClockId, ids: &[ClockId]| ids.iter().position(|x| *x == id).unwrap_or(usize::MAX);
     let mut out = Vec::new();
     let mut stepped = 0.0f64;
-    // take_control events
-    clock.0.lock().unwrap().events.clear();
+    // what take_control passed to the clock: values (frequency, step, error estimate) are judged together with the
+    // first op; the status/disable bookkeeping it always does is not part of any op
+    let mut startup_values: Vec<ClockEvent> = std::mem::take(&mut clock.0.lock().unwrap().events)
+        .into_iter()
+        .filter(|e| matches!(e, ClockEvent::Step { .. } | ClockEvent::SetFreq { .. } | ClockEvent::ErrEst { .. }))
+        .collect();
+    let _ = nh::time::take_nonfinite_seconds();
     for op in &case.ops {
         let held_before: Vec<(usize, Option<SnapView>, bool)> = kh::controller_sources(&ctl)
             .into_iter()
@@ -539,7 +547,12 @@ pub async fn run_case(case: &KCase, stream_fd: Option<i32>) -> Vec<OpResult> {
             next_update_ms = u.next_update.map(|d| d.as_secs_f64() * 1e3);
         }
         let st = kh::controller_state(&ctl);
-        let events = std::mem::take(&mut clock.0.lock().unwrap().events);
+        let mut events = std::mem::take(&mut clock.0.lock().unwrap().events);
+        if !startup_values.is_empty() {
+            let mut v = std::mem::take(&mut startup_values);
+            v.append(&mut events);
+            events = v;
+        }
         for e in &events {
             if let ClockEvent::Step { raw } = e {
                 stepped += *raw as f64 / 4294967296.0;
@@ -584,6 +597,7 @@ pub async fn run_case(case: &KCase, stream_fd: Option<i32>) -> Vec<OpResult> {
             observes,
             desired_polls,
             now: clock.0.lock().unwrap().now,
+            nonfinite_seconds: nh::time::take_nonfinite_seconds(),
         };
         if std::env::var_os("VERIF_TRACE").is_some() {
             eprintln!("TRACE {:?}", r);
